@@ -173,6 +173,11 @@ Section Alg.
   Definition ar_fwd (n : nat) (cond : condT) (order : list nat) (u : list T) : list T * T :=
     ar_fwd_k n (fun _ => cond) order u.
 
+  (* the conditioner of AutoregressiveLayer: z = network(x); t, s = chunk(z, 2); s = scale_act(s);
+     sact i stands for the elementwise scale activation (ScaledTanh: weight * tanh) *)
+  Definition ar_cond (n : nat) (Ls : list mlayer) (sact : nat -> T -> T) : condT :=
+    fun x => let z := mlp Ls x in (vec n (fun i => z@i), vec n (fun i => sact i z@(n + i))).
+
   (* ---- flows/utils.py BatchNormLayer1d / 2d in evaluation mode (2d: parameters repeated over
      the H*W grid by the caller, which yields the `* grid_size` of the code) ---- *)
   Definition bn_bwd (n : nat) (eps : T) (w b rvar rmean : list T) (x : list T) : list T * T :=
